@@ -5,10 +5,25 @@
    Vocabulary: Canon = the canonical sibling order libyang maintains (Tree.v), UniqIds = no two siblings with one
    instance identity at any level (what validation guarantees), lookup_path = the node addressed by an instance path
    (schema node + list keys / leaf-list value per step), expl o n = n is explicit or LYD_MERGE_DEFAULTS is given.
-   _partial: instances of duplicate-instance lists (key-less lists, config false leaf-lists) have no instance path and
-   are matched by position among equal instances through the lyd_dup_inst cache; the _partial statements below do not
-   speak about them (contains / keeps: they cannot be addressed; idempotent: sources that contain them are excluded).
-   For those only the correspondence run and the API oracle (oracles.MergeDup) give evidence.
+   Domain hypotheses shared by the statements: Canon and UniqIds of both operands (valid trees; the correspondence run
+   evaluates canonb / uniq_idsb on every operand it feeds) and schema_okb (only lists have keys, keys are leaves and come
+   first; evaluated on every generated schema). They do not make a statement partial.
+   C14_merge_contains_source is FULL (positional form: multiplicities, key-less list instances and what is below them
+   included); C14_merge_contains_source_by_path is the same content addressed by instance path for the nodes that have
+   one (hypothesis lookup_path sch S path = Some n), narrowed further by C14_merge_contains_leaflist_below / _top and
+   C14_merge_copies_new.
+   C14_merge_keeps_rest (by instance path) together with the level-wise statements covers EVERY target node: take a target
+   node and its first ancestor-or-self A that is an instance of a duplicate-instance list (no instance path). If there is
+   none, the node has a path: C14_merge_keeps_rest. Otherwise the parent P of A has a path (or A is top-level): if the
+   source has no node at P's path, P is unchanged with everything below (C14_merge_keeps_rest on P); if it has, A is
+   either matched by no source sibling and stays as it is (C14_merge_keeps_unmatched_child / _top), or a source instance
+   equals it and it stays fully equal - values of all descendants - while only default flags may change
+   (C14_merge_keeps_dup_below / _top, resting on MergeP.dp_stmt and the function-level level lemma MergeP.level_fn).
+   No _partial theorem is left.
+   C14_merge_idempotent is no longer partial: the hypothesis that excluded sources with instances of duplicate-instance
+   lists is gone (positional absorbed relation MergeP.AbsN + cache invariants E1 / E2 / CI2 carried through both merges,
+   and the lemma that updating an instance with a fully equal one changes only default flags).
+   C14_merge_level states the level-wise structure the narrowed statements rest on.
    Independence of a duplicate from its original (no shared mutable state) is a heap property: the value model cannot
    express it (Merge.dup is the identity); it rests on the sanitizer-backed oracle alone. *)
 From LY Require Import Base Tree TreeP Merge MergeP.
@@ -27,34 +42,69 @@ Theorem C14_merge_uniq : forall sch o T S,
 Proof. exact merge_uniq. Qed.
 Print Assumptions C14_merge_uniq.
 
-(* every explicit source node (with LYD_MERGE_DEFAULTS: every source node), addressed by its instance path, is in the
-   merged tree at the same path, as an instance of the same schema node, and - leaf, leaf-list, anydata - with the
-   source's value. Partial: nodes below a duplicate-instance list instance have no path. *)
-Theorem C14_merge_contains_source_partial : forall sch o T S path n,
+(* FULL containment, positional: the k-th top-level source node of a class (class = instance identity; full equality for
+   duplicate-instance lists) meets the k-th node of that class in the merged tree, and that node has absorbed it
+   (MergeP.AbsN). So the result has at least as many equal instances as the source; C14_absorbed_* say what absorbed
+   means: same class, the source's value for every explicit term (every term with LYD_MERGE_DEFAULTS), full equality for
+   instances of duplicate-instance lists, and the same again for the children - key-less list instances and everything
+   below them included. *)
+Theorem C14_merge_contains_source : forall sch o T S,
+  Canon sch T -> Canon sch S -> UniqIds sch S ->
+  forall pre1 y pre2, S = pre1 ++ y :: pre2 ->
+  exists t', kth sch y (merge sch o T S) (count_match sch y pre1) = Some t' /\ match_eq sch y t' = true /\ AbsN sch o y t'.
+Proof. exact merge_absorbs. Qed.
+Print Assumptions C14_merge_contains_source.
+
+Theorem C14_absorbed_children : forall sch o y t c1 z c2,
+  AbsN sch o y t -> d_ch y = c1 ++ z :: c2 -> is_key sch (d_sid z) = false ->
+  exists u, kth sch z (d_ch t) (count_match sch z c1) = Some u /\ match_eq sch z u = true /\ AbsN sch o z u.
+Proof. exact AbsN_children. Qed.
+Print Assumptions C14_absorbed_children.
+
+Theorem C14_absorbed_term_value : forall sch o y t,
+  match_eq sch y t = true -> AbsN sch o y t -> is_term sch (d_sid y) = true -> expl o y -> d_val t = d_val y.
+Proof. exact AbsN_term_val. Qed.
+Print Assumptions C14_absorbed_term_value.
+
+Theorem C14_absorbed_dup_equal : forall sch y t,
+  dup_inst sch (d_sid y) = true -> match_eq sch y t = true -> deq y t = true.
+Proof. exact match_dup_deq. Qed.
+Print Assumptions C14_absorbed_dup_equal.
+
+(* the same content by instance path, for the nodes that have one: every explicit source node (with
+   LYD_MERGE_DEFAULTS: every source node) addressed by its instance path is in the merged tree at the same path, as an
+   instance of the same schema node, and - leaf, leaf-list, anydata - with the source's value. (Nodes in or below an
+   instance of a duplicate-instance list have no path: for them see C14_merge_contains_source.) *)
+Theorem C14_merge_contains_source_by_path : forall sch o T S path n,
   schema_okb sch = true ->
   Canon sch T -> Canon sch S -> UniqIds sch T -> UniqIds sch S ->
   lookup_path sch S path = Some n -> expl o n ->
   exists n', lookup_path sch (merge sch o T S) path = Some n' /\ d_sid n' = d_sid n /\
              (is_term sch (d_sid n) = true -> d_val n' = d_val n).
 Proof. intros sch o T S path n H. exact (merge_contains_source sch o H T S path n). Qed.
-Print Assumptions C14_merge_contains_source_partial.
+Print Assumptions C14_merge_contains_source_by_path.
 
 (* a target node whose instance path the source does not contain is in the merged tree unchanged - the whole subtree
-   with values, default flags and metadata. Partial: as above. *)
-Theorem C14_merge_keeps_rest_partial : forall sch o T S path n,
+   with values, default flags and metadata. (Nodes in or below an instance of a duplicate-instance list have no path:
+   C14_merge_keeps_unmatched_child / _top and C14_merge_keeps_dup_below / _top; see the header.) *)
+Theorem C14_merge_keeps_rest : forall sch o T S path n,
   Canon sch T -> Canon sch S -> UniqIds sch T -> UniqIds sch S ->
   lookup_path sch T path = Some n -> lookup_path sch S path = None ->
   lookup_path sch (merge sch o T S) path = Some n.
 Proof. exact merge_keeps_rest. Qed.
-Print Assumptions C14_merge_keeps_rest_partial.
+Print Assumptions C14_merge_keeps_rest.
 
-(* merging the same source again changes nothing (values, order, default flags, metadata). Partial: sources in which
-   every node has an identity (no instances of duplicate-instance lists); user-ordered lists with keys are included. *)
-Theorem C14_merge_idempotent_partial : forall sch o T S,
-  Canon sch T -> Canon sch S -> UniqIds sch T -> UniqIds sch S -> Forall (AllId sch) S ->
+(* merging the same source again changes nothing: values, order, default flags, metadata - for every canonical source
+   with unique identities, instances of duplicate-instance lists (key-less lists, config false leaf-lists with repeated
+   values) included: the k-th equal source instance meets, through the lyd_dup_inst cache, the k-th equal instance of
+   the result, which has absorbed it (MergeP.AbsN); updating an instance with a fully equal one changes only default
+   flags (MergeP.dp_stmt), so instances stay in their class while their siblings are merged. Nothing is assumed about
+   identities in the target. *)
+Theorem C14_merge_idempotent : forall sch o T S,
+  Canon sch T -> Canon sch S -> UniqIds sch S ->
   merge sch o (merge sch o T S) S = merge sch o T S.
-Proof. exact merge_idempotent. Qed.
-Print Assumptions C14_merge_idempotent_partial.
+Proof. exact merge_idempotent_full. Qed.
+Print Assumptions C14_merge_idempotent.
 
 (* merging into an empty target yields the source - any canonical source with unique identities, duplicate-instance
    lists included (their equal instances are appended one by one because the lyd_dup_inst entry of the copies is used
@@ -63,6 +113,78 @@ Theorem C14_merge_empty : forall sch o S,
   Canon sch S -> UniqIds sch S -> merge sch o [] S = S.
 Proof. exact merge_empty. Qed.
 Print Assumptions C14_merge_empty.
+
+
+(* ---- level-wise statements: they reach the instances of duplicate-instance lists ---------------------------------- *)
+(* where target and source both have an inner node at an instance path, the merged tree has one too and its children are
+   the target node's children with the source node's children (keys left out) merged in, one MergeP.MStep each *)
+Theorem C14_merge_level : forall sch o T S path nT nS,
+  schema_okb sch = true -> Canon sch T -> Canon sch S -> UniqIds sch T -> UniqIds sch S ->
+  lookup_path sch T path = Some nT -> lookup_path sch S path = Some nS -> is_term sch (d_sid nS) = false ->
+  exists nR, lookup_path sch (merge sch o T S) path = Some nR /\
+             MFold (MStep sch o) (nonkeys sch (d_ch nS)) (d_ch nT) (d_ch nR).
+Proof. intros sch o T S path nT nS H. exact (merge_level sch o H T S path nT nS). Qed.
+Print Assumptions C14_merge_level.
+
+(* a child t of a target node - any kind, also an instance of a key-less list or of a config false leaf-list - that no
+   child of the source node at the same path matches (same identity; fully equal for duplicate-instance lists) is a
+   child of the merged node, unchanged *)
+Theorem C14_merge_keeps_unmatched_child : forall sch o T S path nT nS t,
+  schema_okb sch = true -> Canon sch T -> Canon sch S -> UniqIds sch T -> UniqIds sch S ->
+  lookup_path sch T path = Some nT -> lookup_path sch S path = Some nS -> is_term sch (d_sid nS) = false ->
+  In t (d_ch nT) -> (forall z, In z (d_ch nS) -> match_eq sch z t = false) ->
+  exists nR, lookup_path sch (merge sch o T S) path = Some nR /\ In t (d_ch nR).
+Proof. intros sch o T S path nT nS t H. exact (merge_keeps_unmatched_child sch o H T S path nT nS t). Qed.
+Print Assumptions C14_merge_keeps_unmatched_child.
+
+Theorem C14_merge_keeps_unmatched_top : forall sch o T S t,
+  Canon sch S -> In t T -> (forall z, In z S -> match_eq sch z t = false) -> In t (merge sch o T S).
+Proof. exact merge_keeps_unmatched_top. Qed.
+Print Assumptions C14_merge_keeps_unmatched_top.
+
+(* every top-level target instance of a duplicate-instance list has a fully equal instance in the merged tree: it is kept
+   as it is, or updated by an equal source instance, which changes only default flags *)
+Theorem C14_merge_keeps_dup_top : forall sch o T S u,
+  Canon sch T -> Canon sch S -> UniqIds sch S -> In u T -> dup_inst sch (d_sid u) = true ->
+  exists u', In u' (merge sch o T S) /\ deq u u' = true.
+Proof. exact merge_keeps_dup_top. Qed.
+Print Assumptions C14_merge_keeps_dup_top.
+
+(* ... and below a target node that the source also has at the same instance path *)
+Theorem C14_merge_keeps_dup_below : forall sch o T S path nT nS u,
+  schema_okb sch = true -> Canon sch T -> Canon sch S -> UniqIds sch T -> UniqIds sch S ->
+  lookup_path sch T path = Some nT -> lookup_path sch S path = Some nS -> is_term sch (d_sid nS) = false ->
+  In u (d_ch nT) -> dup_inst sch (d_sid u) = true ->
+  exists nR u', lookup_path sch (merge sch o T S) path = Some nR /\ In u' (d_ch nR) /\ deq u u' = true.
+Proof. intros sch o T S path nT nS u H. exact (merge_keeps_dup_below sch o H T S path nT nS u). Qed.
+Print Assumptions C14_merge_keeps_dup_below.
+
+(* a source inner node (container, list instance) whose instance path the target does not have is in the merged tree as
+   it is: copied with its whole subtree, or part of a copied subtree *)
+Theorem C14_merge_copies_new : forall sch o T S path n,
+  schema_okb sch = true -> Canon sch T -> Canon sch S -> UniqIds sch T -> UniqIds sch S ->
+  lookup_path sch T path = None -> lookup_path sch S path = Some n -> is_term sch (d_sid n) = false ->
+  lookup_path sch (merge sch o T S) path = Some n.
+Proof. intros sch o T S path n H. exact (merge_copies_new sch o H T S path n). Qed.
+Print Assumptions C14_merge_copies_new.
+
+(* every leaf-list instance below an inner source node that has an instance path (config false leaf-lists, where
+   values may repeat, included) has an instance with its value below the node at that path in the merged tree - whether
+   or not the target has that node *)
+Theorem C14_merge_contains_leaflist_below : forall sch o T S path nS x,
+  schema_okb sch = true -> Canon sch T -> Canon sch S -> UniqIds sch T -> UniqIds sch S ->
+  lookup_path sch S path = Some nS -> is_term sch (d_sid nS) = false ->
+  In x (d_ch nS) -> kind_of sch (d_sid x) = KLeafList ->
+  exists nR x', lookup_path sch (merge sch o T S) path = Some nR /\ In x' (d_ch nR) /\
+                d_sid x' = d_sid x /\ d_val x' = d_val x.
+Proof. intros sch o T S path nS x H. exact (merge_contains_leaflist_below sch o H T S path nS x). Qed.
+Print Assumptions C14_merge_contains_leaflist_below.
+
+Theorem C14_merge_contains_leaflist_top : forall sch o T S x,
+  Canon sch S -> In x S -> kind_of sch (d_sid x) = KLeafList ->
+  exists x', In x' (merge sch o T S) /\ d_sid x' = d_sid x /\ d_val x' = d_val x.
+Proof. exact merge_contains_leaflist_top. Qed.
+Print Assumptions C14_merge_contains_leaflist_top.
 
 (* the source is an input of a function: it cannot change. Trivial in the model; on the C side the correspondence run
    compares the dump of the source before and after a non-destructive merge, and both merge modes (with and without
@@ -104,15 +226,13 @@ Definition ex_S : forest :=
 Definition ex_o : mopts := mk_mopts false false.
 
 Example C14_example_hypotheses :
-  schema_okb ex_sch = true /\ Canon ex_sch ex_T /\ Canon ex_sch ex_S /\ UniqIds ex_sch ex_T /\ UniqIds ex_sch ex_S /\
-  Forall (AllId ex_sch) ex_S.
+  schema_okb ex_sch = true /\ Canon ex_sch ex_T /\ Canon ex_sch ex_S /\ UniqIds ex_sch ex_T /\ UniqIds ex_sch ex_S.
 Proof.
   split; [vm_compute; reflexivity|].
   split; [apply canonb_spec; vm_compute; reflexivity|].
   split; [apply canonb_spec; vm_compute; reflexivity|].
   split; [apply uniq_idsb_spec; vm_compute; reflexivity|].
-  split; [apply uniq_idsb_spec; vm_compute; reflexivity|].
-  repeat constructor; apply all_idb_spec; vm_compute; reflexivity.
+  apply uniq_idsb_spec; vm_compute; reflexivity.
 Qed.
 
 (* and the merge does what one expects there: a overwritten (explicit now), l[2] inserted in key order, l[3] updated,
@@ -128,3 +248,61 @@ Example C14_example_path :
   lookup_path ex_sch ex_T [IdNode 0; IdKeys 2 [[49]]] = Some (ex_entry [49] [120]) /\
   lookup_path ex_sch ex_S [IdNode 0; IdKeys 2 [[49]]] = None.
 Proof. vm_compute. repeat split. Qed.
+
+
+(* state data: container st { config false; leaf-list sl (values may repeat); list kl { leaf x } without key } *)
+Definition ex2_sch : schema :=
+  [ (0, mk_sinfo (KCont false) None [] false false [] [] false 0 None OBytes);
+    (1, mk_sinfo KLeafList (Some 0) [] false false [] [] false 0 None OBytes);
+    (2, mk_sinfo KList (Some 0) [] false false [] [] false 0 None OBytes);
+    (3, mk_sinfo KLeaf (Some 2) [] false false [] [] false 0 None OInt) ].
+Definition ex2_kl (v : bytes) : dnode := DN 2 [] false [] [DN 3 v false [] []].
+(* target: st { sl = a, sl = a, kl { x = 1 } }   source: st { sl = a, sl = b, kl { x = 2 } } *)
+Definition ex2_T : forest := [ DN 0 [] false [] [DN 1 [97] false [] []; DN 1 [97] false [] []; ex2_kl [49]] ].
+Definition ex2_S : forest := [ DN 0 [] false [] [DN 1 [97] false [] []; DN 1 [98] false [] []; ex2_kl [50]] ].
+
+Example C14_example2_hypotheses :
+  schema_okb ex2_sch = true /\ Canon ex2_sch ex2_T /\ Canon ex2_sch ex2_S /\ UniqIds ex2_sch ex2_T /\ UniqIds ex2_sch ex2_S /\
+  dup_inst ex2_sch 1 = true /\ dup_inst ex2_sch 2 = true /\
+  (exists nT nS, lookup_path ex2_sch ex2_T [IdNode 0] = Some nT /\ lookup_path ex2_sch ex2_S [IdNode 0] = Some nS /\
+                 is_term ex2_sch (d_sid nS) = false /\ In (ex2_kl [49]) (d_ch nT) /\
+                 forallb (fun z => negb (match_eq ex2_sch z (ex2_kl [49]))) (d_ch nS) = true /\
+                 In (DN 1 [98] false [] []) (d_ch nS)).
+Proof.
+  split; [vm_compute; reflexivity|].
+  split; [apply canonb_spec; vm_compute; reflexivity|].
+  split; [apply canonb_spec; vm_compute; reflexivity|].
+  split; [apply uniq_idsb_spec; vm_compute; reflexivity|].
+  split; [apply uniq_idsb_spec; vm_compute; reflexivity|].
+  split; [vm_compute; reflexivity|]. split; [vm_compute; reflexivity|].
+  eexists. eexists. split; [vm_compute; reflexivity|]. split; [vm_compute; reflexivity|].
+  split; [vm_compute; reflexivity|]. split; [cbn; right; right; left; reflexivity|].
+  split; [vm_compute; reflexivity|]. cbn. right. left. reflexivity.
+Qed.
+
+(* the equal value a is matched once per instance (nothing appended), b and the unequal key-less list instance are
+   appended after the instances of their schema nodes *)
+Example C14_example2_merge :
+  merge ex2_sch ex_o ex2_T ex2_S =
+  [ DN 0 [] false [] [DN 1 [97] false [] []; DN 1 [97] false [] []; DN 1 [98] false [] []; ex2_kl [49]; ex2_kl [50]] ] /\
+  merge ex2_sch ex_o (merge ex2_sch ex_o ex2_T ex2_S) ex2_S = merge ex2_sch ex_o ex2_T ex2_S.
+Proof. vm_compute. split; reflexivity. Qed.
+
+(* idempotence applies to sources with repeated config false leaf-list values and key-less list instances *)
+Definition ex3_S : forest :=
+  [ DN 0 [] false [] [DN 1 [97] false [] []; DN 1 [98] false [] []; DN 1 [97] false [] []; ex2_kl [49]; ex2_kl [49]; ex2_kl [50]] ].
+Example C14_example3_idempotent :
+  Canon ex2_sch ex3_S /\ UniqIds ex2_sch ex3_S /\
+  merge ex2_sch ex_o ex2_T ex3_S =
+  [ DN 0 [] false [] [DN 1 [97] false [] []; DN 1 [97] false [] []; DN 1 [98] false [] [];
+                      ex2_kl [49]; ex2_kl [49]; ex2_kl [50]] ] /\
+  merge ex2_sch ex_o (merge ex2_sch ex_o ex2_T ex3_S) ex3_S = merge ex2_sch ex_o ex2_T ex3_S.
+Proof.
+  split; [apply canonb_spec; vm_compute; reflexivity|].
+  split; [apply uniq_idsb_spec; vm_compute; reflexivity|].
+  split; [vm_compute; reflexivity|].
+  apply C14_merge_idempotent.
+  - apply canonb_spec; vm_compute; reflexivity.
+  - apply canonb_spec; vm_compute; reflexivity.
+  - apply uniq_idsb_spec; vm_compute; reflexivity.
+Qed.
